@@ -6,15 +6,18 @@
 (***************************************************************************)
 EXTENDS Naturals, Sequences, FiniteSets, TLC, Json
 
+ManyNames == <<"x-t-00", "x-t-01", "x-t-02", "x-t-03", "x-t-04", "x-t-05", "x-t-06", "x-t-07", "x-t-08", "x-t-09", "x-t-10", "x-t-11", "x-t-12", "x-t-13", "x-t-14", "x-t-15", "x-t-16", "x-t-17", "x-t-18", "x-t-19", "x-t-20", "x-t-21", "x-t-22", "x-t-23", "x-t-24", "x-t-25", "x-t-26", "x-t-27", "x-t-28", "x-t-29", "x-t-30", "x-t-31", "x-t-32", "x-t-33", "x-t-34", "x-t-35">>
+
 Ops ==
   {[op |-> "header", n |-> n, vs |-> vs] : n \in {"x-a", "X-B", "content-type"}, vs \in {<<"v1">>, <<"v2">>}}
   \cup {[op |-> "header", n |-> "x-a", vs |-> vs] :
           vs \in {<<"v1", "v2">>, <<"v1", "v1">>, <<"v1", "v1", "v2">>, <<"v2", "v1", "v2">>}}    \* multi-valued, with repeats
+  \cup {[op |-> "many", ns |-> ManyNames]}        \* three dozen headers at once (orderings and small-size paths)
   \cup {[op |-> "ctype", m |-> "m_custom"]}
   \cup {[op |-> "body", k |-> k] : k \in {"string", "bytes", "json", "form", "empty"}}
   \cup {[op |-> "query", q |-> q] : q \in {"q1", "q2"}}
 
-Method == {"GET", "POST", "PUT", "DELETE", "PATCH", "HEAD", "OPTIONS"}
+Method == {"GET", "POST", "PUT", "DELETE", "PATCH", "HEAD", "OPTIONS", "TRACE", "CONNECT"}
 Url    == {"u_plain", "u_query", "u_fragment", "u_unicode", "u_percent", "u_port"}
 Api    == {"command", "capability"}
 
@@ -34,6 +37,8 @@ Put(h, n, vs) == [x \in DOMAIN h \cup {n} |-> IF x = n THEN vs ELSE h[x]]
 
 Apply(st, o) ==
   CASE o.op = "header" -> [st EXCEPT !.headers = Put(@, Norm(o.n), o.vs)]      \* insert replaces
+    [] o.op = "many"   -> [st EXCEPT !.headers = [x \in DOMAIN @ \cup {o.ns[i] : i \in DOMAIN o.ns} |->
+                                                      IF \E i \in DOMAIN o.ns : o.ns[i] = x THEN <<"v1">> ELSE @[x]]]
     [] o.op = "ctype"  -> [st EXCEPT !.headers = Put(@, "content-type", <<o.m>>)]
     [] o.op = "body"   -> [st EXCEPT !.body = o.k,
                                      !.headers = IF "content-type" \in DOMAIN @ THEN @
